@@ -374,6 +374,11 @@ func (r Reason) In(reasons ...Reason) (ok bool) { return slices.Contains(reasons
 
 // SetEnabled sets the status of the *DNSFilter.
 func (d *DNSFilter) SetEnabled(enabled bool) {
+	// Synchronize with the copying of the whole configuration in
+	// [DNSFilter.WriteDiskConfig].
+	d.confMu.Lock()
+	defer d.confMu.Unlock()
+
 	atomic.StoreUint32(&d.conf.enabled, mathutil.BoolToNumber[uint32](enabled))
 }
 
@@ -392,6 +397,11 @@ func (d *DNSFilter) Settings() (s *Settings) {
 
 // WriteDiskConfig - write configuration
 func (d *DNSFilter) WriteDiskConfig(c *Config) {
+	// The whole configuration is copied below, including the fields protected
+	// by filtersMu, so hold it during the copying as well.
+	d.conf.filtersMu.RLock()
+	defer d.conf.filtersMu.RUnlock()
+
 	func() {
 		d.confMu.Lock()
 		defer d.confMu.Unlock()
@@ -399,9 +409,6 @@ func (d *DNSFilter) WriteDiskConfig(c *Config) {
 		*c = *d.conf
 		c.Rewrites = cloneRewrites(c.Rewrites)
 	}()
-
-	d.conf.filtersMu.RLock()
-	defer d.conf.filtersMu.RUnlock()
 
 	c.Filters = slices.Clone(d.conf.Filters)
 	c.WhitelistFilters = slices.Clone(d.conf.WhitelistFilters)
